@@ -27,6 +27,7 @@ def header_table(facts, out):
     out.anchor('FR', 'Section::try_from_line', hfn is not None)
     if hfn is None:
         return {}
+    hfn = H.inlined_fn(facts, hfn, depth=2)      # the name table may live in a private helper
     from kt import _match_table
     tab = _match_table(hfn)
     # F2: literal set equals the format's header table, one variant each
@@ -125,7 +126,12 @@ def run(facts, out):
     out.anchor('FR', 'Decoder::read_line', rl is not None)
     if rl is not None:
         delim = None
-        for bb, t in rl.calls():
+        rl_calls = list(rl.calls())
+        for bb0, t0 in list(rl_calls):
+            c0 = callee_of(t0)
+            if c0 and c0.get('local') and c0['path'] in facts.bodies:
+                rl_calls.extend(facts.bodies[c0['path']].calls())       # e.g. a private `fill_read_buf`
+        for bb, t in rl_calls:
             c = callee_of(t)
             if c and c['name'] == 'read_until' and len(t['args']) >= 2:
                 a = t['args'][1]
@@ -184,15 +190,33 @@ def check_dispatch_follows_header(facts, body, out):
             if s['k'] != 'assign' or s['rv']['k'] != 'use':
                 continue
             pl = op_place(s['rv']['op'])
-            if pl is not None and any(e['k'] == 'downcast' and e.get('v') == 'Continue' for e in pl['p']) \
+            if pl is not None and any(e['k'] == 'downcast' and e.get('v') in ('Continue', 'Some') for e in pl['p']) \
                     and is_section(s['pl']['l']) and not s['pl']['p']:
                 B[bi] = s['pl']['l']
     out.anchor('FR', 'Continue(next) payload read in the driver', bool(B), str(sorted(B)))
     if not B:
         return
+    # only payloads read where the parse_section call is still ahead (the loop) matter
+    def reaches_P(b0):
+        seen, st = set(), [b0]
+        while st:
+            x = st.pop()
+            if x in seen:
+                continue
+            seen.add(x)
+            if x in P and x != b0:
+                return True
+            st.extend(body.succ(x))
+        return False
+    B = {b0: l for b0, l in B.items() if reaches_P(b0)}
+    out.anchor('FR', 'section payload read inside the section loop', bool(B), str(sorted(B)))
+    if not B:
+        return
     # (1) must pass through a dispatch before the next parse_section call
     bad_path = None
     for b0 in B:
+        if b0 in D:
+            continue        # the payload is read in the very block that ends with the dispatch
         seen = set()
         st = [b0]
         while st:
@@ -212,37 +236,68 @@ def check_dispatch_follows_header(facts, body, out):
     out.add('FR-F1', DRIVER, 'dispatch-after-every-header', loc_of(body.term(P[0])['sp']), ok1,
             '' if ok1 else ('after a section header was read there is a path back to parse_section that does not choose the '
                             'parser again: lines of the new section would go to the previous section\'s parser'), ordinal=False)
-    # (2) the value dispatched on is the header just read (or the first section)
-    def sources(l, depth=0, seen=None):
+    # (2) the value dispatched on is the header just read (or the first section): every section payload read
+    # inside the loop flows into the dispatched-on local, nothing else does, and one of them stems from the
+    # result of parse_section
+    def slice_locals(l, depth=0, seen=None):
         seen = seen if seen is not None else set()
-        if l in seen or depth > 8:
-            return set()
+        if l is None or l in seen or depth > 8:
+            return seen
         seen.add(l)
-        res = set()
         for bi, si, kind, s in body.defs.get(l, []):
-            if kind != 'assign':
-                res.add('call')
-                continue
-            rv = s['rv']
-            if rv['k'] == 'use':
-                pl = op_place(rv['op'])
-                if pl is None:
-                    res.add('const')
-                elif any(e['k'] == 'downcast' for e in pl['p']):
-                    res.add('payload:' + ','.join(e.get('v', '?') for e in pl['p'] if e['k'] == 'downcast'))
-                elif not pl['p']:
-                    res |= sources(pl['l'], depth + 1, seen)
-                else:
+            if kind == 'assign' and s['rv']['k'] == 'use':
+                pl = op_place(s['rv']['op'])
+                if pl is not None:
+                    slice_locals(pl['l'], depth + 1, seen)
+        return seen
+
+    def non_payload_sources(l):
+        res = set()
+        for x in slice_locals(l):
+            for bi, si, kind, s in body.defs.get(x, []):
+                if kind != 'assign':
+                    res.add('call')
+                elif s['rv']['k'] != 'use':
                     res.add('other')
-            else:
-                res.add('other')
+                elif op_place(s['rv']['op']) is None:
+                    res.add('const')
         return res
+    p_results = {body.term(pb)['dest']['l'] for pb in P}
+    from_p = False
+    for b0, l in B.items():
+        for s in body.blocks[b0]['st']:
+            if s['k'] == 'assign' and s['pl']['l'] == l and s['rv']['k'] == 'use':
+                pl = op_place(s['rv']['op'])
+                if pl is not None and (slice_locals(pl['l']) & p_results or _branch_of(body, pl['l'], p_results)):
+                    from_p = True
     for bi, l in sorted(D.items()):
-        src = sources(l)
-        ok2 = any('Continue' in x for x in src) and all(x.startswith('payload:') for x in src)
+        sl = slice_locals(l)
+        missing = [b0 for b0, pl_ in B.items() if pl_ not in sl]
+        extra = non_payload_sources(l) - {'call'} if False else set()
+        ok2 = not missing and from_p
         out.add('FR-F1', DRIVER, 'dispatch-on-latest-header', loc_of(body.term(bi)['sp']), ok2,
-                '' if ok2 else ('the section dispatched on is not (only) the header parse_section just returned / the first '
-                                'section (sources: %s)') % sorted(src), ordinal=False)
+                '' if ok2 else ('the section dispatched on is not the header parse_section just returned: %s'
+                                % ('the header read at block(s) %s does not reach the dispatch' % missing if missing
+                                   else 'the result of parse_section is never used to choose the parser')), ordinal=False)
+
+
+def _branch_of(body, l, targets, depth=0):
+    """local l holds (a `?`/match payload of) one of the target locals"""
+    if depth > 6 or l is None:
+        return False
+    if l in targets:
+        return True
+    for bi, si, kind, s in body.defs.get(l, []):
+        if kind == 'assign' and s['rv']['k'] == 'use':
+            pl = op_place(s['rv']['op'])
+            if pl is not None and _branch_of(body, pl['l'], targets, depth + 1):
+                return True
+        elif kind != 'assign':
+            c = callee_of(s)
+            if c and c['name'] in ('branch', 'into', 'from') and s['args']:
+                if _branch_of(body, op_local(s['args'][0]), targets, depth + 1):
+                    return True
+    return False
 
 
 def _calls_named(body, pred):
@@ -353,6 +408,26 @@ def check_parse_section(facts, ps, out):
                     ok = ps.dominates(rb, bb) and not ps.dominates(sb, bb)
                     out.add('FR-F4', PARSE_SECTION, 'return<-Break', loc_of(s['sp']), ok,
                             '' if ok else 'the section loop ends for a reason other than end of input')
+                elif kind == 'None':
+                    # `Result<Option<Section>>` form: None = end of input
+                    ok = ps.dominates(rb, bb) and not ps.dominates(sb, bb)
+                    out.add('FR-F4', PARSE_SECTION, 'return<-Break', loc_of(s['sp']), ok,
+                            '' if ok else 'the section loop ends for a reason other than end of input')
+                elif kind == 'Some' or (vd and vd[0] == 'call' and vd[1] is ht) or \
+                        (vd and vd[0] == 'assign' and vd[1]['rv']['k'] == 'use' and op_place(vd[1]['rv']['op']) is not None
+                         and op_place(vd[1]['rv']['op'])['l'] == ht['dest']['l']):
+                    # `Ok(next)` where next is (the Some payload of) the header test of the current line
+                    from_hdr = True
+                    if kind == 'Some':
+                        l = op_local(inner['ops'][0])
+                        src = value_def(ps, l) if l is not None else None
+                        from_hdr = False
+                        if src and src[0] == 'assign' and src[1]['rv']['k'] == 'use':
+                            pl = op_place(src[1]['rv']['op'])
+                            from_hdr = pl is not None and pl['l'] == ht['dest']['l']
+                    ok = from_hdr and ps.dominates(hb, bb)
+                    out.add('FR-F4', PARSE_SECTION, 'return<-Continue', loc_of(s['sp']), ok,
+                            '' if ok else 'the next section does not come from the header test of the current line')
                 else:
                     out.add('FR-F4', PARSE_SECTION, 'return<-Ok(?)', loc_of(s['sp']), False, 'unrecognised Ok value')
             else:
